@@ -274,6 +274,7 @@ type ndRun struct {
 	spid     []gen.PID
 	issued   int
 	faultsAt map[int][]NDFault
+	tail     []int // ids of the messages sent long after the last fault
 }
 
 func compressionOf(s NDSender) gen.Compression {
@@ -471,6 +472,55 @@ func runDelivery(prop string, e *simkit.Env, c *NDCase) *ndRun {
 	}
 	e.WaitClients(time.Hour)
 	e.Settle(30 * time.Second)
+	// tail: long after the last fault (a cut link has been re-dialled by now) fresh processes with
+	// consecutive ids - they spread over all pooled links - write to an unbounded receiver
+	cut := false
+	for _, f := range c.Faults {
+		if f.Kind == "cutlink" {
+			cut = true
+		}
+	}
+	target := -1
+	for i, mb := range c.Receivers {
+		if mb == 0 {
+			target = i
+			break
+		}
+	}
+	if cut && target >= 0 && !e.Failed() {
+		for k := 0; k < 6; k++ {
+			k := k
+			th := &Hooks{Name: fmt.Sprintf("tail%d", k), Env: e}
+			th.Message = func(p *Probe, from gen.PID, m any) error {
+				if m != "go" {
+					return nil
+				}
+				for j := 0; j < 2; j++ {
+					id := 900000 + k*10 + j
+					op := NDOp{Kind: "send", To: target, Mode: "pid", Typ: "int"}
+					r.mu.Lock()
+					r.sent = append(r.sent, ndSent{sender: -1, seq: j, id: id, op: op})
+					idx := len(r.sent) - 1
+					r.mu.Unlock()
+					err := p.Send(r.rpid[target], ndMsg{ID: id, Data: ndPayload(id, "int", 0)})
+					r.mu.Lock()
+					r.sent[idx].err = err
+					r.tail = append(r.tail, id)
+					r.mu.Unlock()
+					e.Logf("tail%d send id=%d -> %v", k, id, err)
+				}
+				return nil
+			}
+			pid, err := r.a.Spawn(ProbeFactory(th), gen.ProcessOptions{})
+			if err != nil {
+				e.Infra("spawn tail sender: " + err.Error())
+				return nil
+			}
+			r.a.Send(pid, "go")
+		}
+		e.Settle(10 * time.Second)
+		e.Probe("messages-after-redial")
+	}
 	return r
 }
 
